@@ -320,11 +320,11 @@ def gen_script_desc(ctx, rng, k):
 
 def run(ctx):
     rng = ctx.rng
-    npairs = ctx.n(26, 1200)
+    npairs = ctx.n(40, 1500)
     NSTEPS = 4
     ops, meta = [], []
     for k in range(npairs):
-        if ctx.time_left() < 22:
+        if C1.out_of_time(ctx):
             ctx.notes.append("stopped after %d pairs (time budget)" % k)
             break
         sdA, phys = gen_script_desc(ctx, rng, k)
